@@ -646,7 +646,7 @@ Qed.
     a >= -2^l + 2b - 2, and whenever rdiv >= 1; it fails only for (part of) the tapes with rdiv = 0. *)
 Theorem mod_correct p l k b a rbits rdiv ssign rz :
   prime p -> 2 <= k -> 1 <= l -> 2 ^ (l + k + 1) < p ->
-  0 < b < 2 ^ l -> - 2 ^ l <= a < 2 ^ l ->
+  0 < b < 2 ^ l -> a < 2 ^ l ->
   Forall bit rbits -> bits_val rbits < b -> b <= 2 ^ Z.of_nat (length rbits) ->
   3 * Z.of_nat (length rbits) + 3 < p ->
   0 <= rdiv < 2 ^ k -> (ssign = 1 \/ ssign = p - 1) -> rz mod p <> 0 ->
@@ -723,7 +723,7 @@ Definition floordiv_v (p l b x : Z) (rbits : list Z) (rdiv ssign rz : Z) : Z :=
 
 Theorem floordiv_correct p l k b a rbits rdiv ssign rz :
   prime p -> 2 <= k -> 1 <= l -> 2 ^ (l + k + 1) < p ->
-  0 < b < 2 ^ l -> - 2 ^ l <= a < 2 ^ l ->
+  0 < b < 2 ^ l -> a < 2 ^ l ->
   Forall bit rbits -> bits_val rbits < b -> b <= 2 ^ Z.of_nat (length rbits) ->
   3 * Z.of_nat (length rbits) + 3 < p ->
   0 <= rdiv < 2 ^ k -> (ssign = 1 \/ ssign = p - 1) -> rz mod p <> 0 ->
@@ -737,4 +737,157 @@ Proof.
   replace ((a mod p - (a mod b) mod p) mod p) with ((a / b * b) mod p).
   - apply (fdiv_exact p b (a / b) Hp Hbp).
   - pose proof (Z.div_mod a b ltac:(lia)). replace (a / b * b) with (a - a mod b) by lia. modring.
+Qed.
+
+(** * pow (runtime.pow) for public exponents: square-and-multiply, least significant bit first *)
+(** [for i in range(b.bit_length()-1): if (b >> i) & 1: c = c * d; d = d * d] then [c = c * d] *)
+Fixpoint pow_pos (p c d : Z) (e : positive) : Z :=
+  match e with
+  | xH => (c * d) mod p
+  | xO e' => pow_pos p c ((d * d) mod p) e'
+  | xI e' => pow_pos p ((c * d) mod p) ((d * d) mod p) e'
+  end.
+
+(** the addition chain used for b = 254 (AES S-box): 11 multiplications *)
+Definition mulm (p x y : Z) : Z := (x * y) mod p.
+Definition pow254 (p a : Z) : Z :=
+  let d := a in
+  let c := mulm p d d in let c := mulm p c c in let c := mulm p c c in
+  let c := mulm p c d in let c := mulm p c c in
+  let '(c, d) := (mulm p c c, mulm p c d) in      (* c, d = scalar_mul(c, [c, d]) *)
+  let '(c, d) := (mulm p c c, mulm p c d) in
+  let c := mulm p c d in mulm p c c.
+
+Lemma mulm_pow p a m n : 0 <= m -> 0 <= n -> mulm p (a ^ m mod p) (a ^ n mod p) = a ^ (m + n) mod p.
+Proof. intros Hm Hn. unfold mulm. rewrite <- Zmult_mod, Z.pow_add_r by lia. reflexivity. Qed.
+
+Definition pow_v (p x e : Z) : Z :=
+  if e =? 254 then pow254 p x else
+  match e with
+  | Z0 => 1 mod p                (* type(a)(1) *)
+  | Zpos e' => pow_pos p 1 x e'
+  | Zneg _ => 0                  (* reciprocal: not an integer operation, not modelled *)
+  end.
+
+Lemma pow_pos_spec p : 0 < p -> forall e c d, pow_pos p c d e = (c * d ^ Zpos e) mod p.
+Proof.
+  intros Hp. induction e as [e IH|e IH|]; intros c d; cbn [pow_pos].
+  - rewrite IH.
+    assert (Hd : d ^ Z.pos e~1 = d * (d * d) ^ Z.pos e).
+    { rewrite Pos2Z.inj_xI, Z.pow_add_r, Z.pow_1_r, Z.pow_twice_r, Z.pow_mul_l by lia. ring. }
+    rewrite Hd.
+    rewrite Zmult_mod_idemp_l, (Zmult_mod (c * d)), <- Zpower_mod, <- Zmult_mod by lia.
+    f_equal. ring.
+  - rewrite IH.
+    assert (Hd : d ^ Z.pos e~0 = (d * d) ^ Z.pos e).
+    { rewrite Pos2Z.inj_xO, Z.pow_twice_r, Z.pow_mul_l. ring. }
+    rewrite Hd.
+    rewrite (Zmult_mod c), <- Zpower_mod, <- Zmult_mod by lia. reflexivity.
+  - rewrite Z.pow_1_r. reflexivity.
+Qed.
+
+Theorem pow_correct p a e : 0 < p -> 0 <= e -> e <> 254 -> pow_v p (a mod p) e = (a ^ e) mod p.
+Proof.
+  intros Hp He H254. unfold pow_v. destruct (e =? 254) eqn:E; [apply Z.eqb_eq in E; lia|].
+  destruct e as [|e|e]; [reflexivity| |lia].
+  rewrite pow_pos_spec by lia. rewrite Z.mul_1_l. symmetry. apply Zpower_mod. lia.
+Qed.
+
+(** * if_else / if_swap (runtime.if_else, runtime.if_swap) for a bit condition *)
+Definition if_else_v (p c x y : Z) : Z := ((c * ((x - y) mod p)) mod p + y) mod p.
+Definition if_swap_v (p c x y : Z) : Z * Z :=
+  let d := (c * ((y - x) mod p)) mod p in ((x + d) mod p, (y - d) mod p).
+
+Theorem if_else_correct p c x y : bit c ->
+  if_else_v p c (x mod p) (y mod p) = (if c =? 0 then y else x) mod p.
+Proof. intros [-> | ->]; unfold if_else_v; cbn [Z.eqb]; modring. Qed.
+
+Theorem if_swap_correct p c x y : bit c ->
+  if_swap_v p c (x mod p) (y mod p) = if c =? 0 then (x mod p, y mod p) else (y mod p, x mod p).
+Proof.
+  intros [-> | ->]; unfold if_swap_v; cbn [Z.eqb].
+  - rewrite Z.mul_0_l, Zmod_0_l, Z.add_0_r, Z.sub_0_r, !Zmod_mod. reflexivity.
+  - rewrite Z.mul_1_l, Zmod_mod, Zplus_mod_idemp_r, Zminus_mod_idemp_r.
+    replace (x mod p + (y mod p - x mod p)) with (y mod p) by ring.
+    replace (y mod p - (y mod p - x mod p)) with (x mod p) by ring.
+    rewrite !Zmod_mod. reflexivity.
+Qed.
+
+(** list versions (_if_else_list): [a * (x[i] - y[i]) + y[i]] elementwise *)
+Definition if_else_list_v (p c : Z) (xs ys : list Z) : list Z :=
+  map (fun xy => (c * (fst xy - snd xy) + snd xy) mod p) (combine xs ys).
+
+Theorem if_else_list_correct p c xs ys : bit c -> length xs = length ys ->
+  if_else_list_v p c (map (fun x => x mod p) xs) (map (fun y => y mod p) ys)
+  = map (fun v => v mod p) (if c =? 0 then ys else xs).
+Proof.
+  intros Hc. revert ys. induction xs as [|x xs IH]; intros [|y ys] Hl; simpl in Hl; try lia.
+  - destruct (c =? 0); reflexivity.
+  - unfold if_else_list_v in *. cbn [map combine fst snd].
+    specialize (IH ys ltac:(lia)). rewrite IH.
+    destruct Hc as [-> | ->]; cbn [Z.eqb map]; f_equal; modring.
+Qed.
+
+(** * in_prod (runtime.in_prod): sum of value products, reduced once *)
+Fixpoint dot (xs ys : list Z) : Z :=
+  match xs, ys with x :: xs', y :: ys' => x * y + dot xs' ys' | _, _ => 0 end.
+
+Definition in_prod_v (p : Z) (xs ys : list Z) : Z := dot xs ys mod p.
+
+Theorem in_prod_correct p xs ys :
+  in_prod_v p (map (fun x => x mod p) xs) (map (fun y => y mod p) ys) = dot xs ys mod p.
+Proof.
+  unfold in_prod_v. revert ys. induction xs as [|x xs IH]; intros [|y ys]; cbn [map dot]; auto.
+  transitivity ((x * y + dot (map (fun x => x mod p) xs) (map (fun y => y mod p) ys) mod p) mod p);
+    [modring|]. rewrite IH. modring.
+Qed.
+
+(** sum (runtime.sum): sum of the values, reduced once *)
+Definition sum_v (p : Z) (xs : list Z) : Z := fold_right Z.add 0 xs mod p.
+Theorem sum_correct p xs : sum_v p (map (fun x => x mod p) xs) = fold_right Z.add 0 xs mod p.
+Proof.
+  unfold sum_v. induction xs as [|x xs IH]; cbn [map fold_right]; auto.
+  transitivity ((x + fold_right Z.add 0 (map (fun x => x mod p) xs) mod p) mod p); [modring|].
+  rewrite IH. modring.
+Qed.
+
+(** * matrix_prod (runtime.matrix_prod): value semantics, B given transposed (rows of B^T) *)
+(** C[i][j] = sum_k A[i][k] * Bt[j][k]; the code's [tr=False] branch indexes B[k][j] instead, which
+    is the same sum for Bt = transpose B. *)
+Definition matrix_prod_v (p : Z) (A Bt : list (list Z)) : list (list Z) :=
+  map (fun row => map (fun col => dot row col mod p) Bt) A.
+
+(** the symmetric shortcut for A * A^T: only j <= i is computed, the rest mirrored:
+    [C[i][j] = C'[i*(i+1)/2 + j] if j < i else C'[j*(j+1)/2 + i]] *)
+Definition tri_entry (p : Z) (A : list (list Z)) (i j : nat) : Z :=
+  dot (nth i A []) (nth j A []) mod p.
+Definition matrix_prod_sym_v (p : Z) (A : list (list Z)) : list (list Z) :=
+  map (fun i => map (fun j => if Nat.ltb j i then tri_entry p A i j else tri_entry p A j i)
+                    (seq 0 (length A))) (seq 0 (length A)).
+
+Lemma dot_comm xs : forall ys, dot xs ys = dot ys xs.
+Proof. induction xs as [|x xs IH]; intros [|y ys]; cbn [dot]; auto. rewrite IH. ring. Qed.
+
+Theorem matrix_prod_entry p A Bt i j : (i < length A)%nat -> (j < length Bt)%nat ->
+  nth j (nth i (matrix_prod_v p A Bt) []) 0 = dot (nth i A []) (nth j Bt []) mod p.
+Proof.
+  intros Hi Hj. unfold matrix_prod_v.
+  rewrite (nth_indep _ [] (map (fun col => dot [] col mod p) Bt)) by (rewrite map_length; auto).
+  rewrite (map_nth (fun row => map (fun col => dot row col mod p) Bt) A [] i).
+  rewrite (nth_indep _ 0 (dot (nth i A []) [] mod p)) by (rewrite map_length; auto).
+  apply (map_nth (fun col => dot (nth i A []) col mod p) Bt [] j).
+Qed.
+
+Theorem matrix_prod_sym_correct p A i j : (i < length A)%nat -> (j < length A)%nat ->
+  nth j (nth i (matrix_prod_sym_v p A) []) 0 = nth j (nth i (matrix_prod_v p A A) []) 0.
+Proof.
+  intros Hi Hj. rewrite matrix_prod_entry by auto. unfold matrix_prod_sym_v.
+  set (f := fun i => map (fun j => if Nat.ltb j i then tri_entry p A i j else tri_entry p A j i)
+                         (seq 0 (length A))).
+  rewrite (nth_indep _ [] (f O)) by (rewrite map_length, seq_length; auto).
+  rewrite (map_nth f (seq 0 (length A)) O i), seq_nth by auto. unfold f. cbn [plus].
+  set (g := fun j => if Nat.ltb j i then tri_entry p A i j else tri_entry p A j i).
+  rewrite (nth_indep _ 0 (g O)) by (rewrite map_length, seq_length; auto).
+  rewrite (map_nth g (seq 0 (length A)) O j), seq_nth by auto. unfold g. cbn [plus].
+  unfold tri_entry. destruct (Nat.ltb j i); auto. now rewrite dot_comm.
 Qed.
